@@ -770,6 +770,11 @@ def run(prog, rep, tier):
              'evolved_time, trunc_err) are stored by get_resume_data')
     if check_resume_accumulators(prog, rep) < 8:
         raise AnalysisError('RESUME-accumulators: fewer than 8 accumulations in Algorithm classes')
+    rep.rule('RESUME-read-before-consume / RESUME-seq-index', 'overrides read the resume data before '
+             'the base init_algorithm consumes it; the sequential index is stored before the '
+             'parameters are copied')
+    if check_resume_ordering(prog, rep) < 2:
+        raise AnalysisError('RESUME-read-before-consume / RESUME-seq-index: anchors not found')
     rep.floor('CRASH-typestate', 8)
     rep.floor('RESUME-order', 2)
     rep.floor('RESUME-keys', 3)
@@ -1360,4 +1365,70 @@ def check_resume_accumulators(prog, rep):
                                   '(along the MRO of %s) stores only %s: an engine resumed from a '
                                   'checkpoint restarts it from its initial value' %
                                   (key_text(st)[:60], a, ci.name, sorted(saved)), st.lineno)
+    return n
+
+
+# ------------------------------------------------------------------ round-5: ordering around shared resume state
+def check_resume_ordering(prog, rep):
+    """RESUME-read-before-consume: Simulation.init_algorithm consumes `self.results['resume_data']`
+    (clear + del; fact read off its body). An override that needs something out of it reads it
+    BEFORE delegating to super().init_algorithm(..).
+    RESUME-seq-index: run_seq_simulations stores the index of the running simulation into the
+    `sequential` dict that is part of `simulation_params`; the parameters of each simulation are a
+    deep copy of `simulation_params`, saved in its checkpoints and incremented on resume. The store
+    `sequential['index'] = index` therefore precedes that deep copy inside the loop."""
+    n = 0
+    ct = prog.classtable()
+    base = ct.get('Simulation')
+    bi = base.methods['init_algorithm']
+    consumes = any(isinstance(st, ast.Delete) and "self.results['resume_data']" in unparse(st)
+                   for st in ast.walk(bi))
+    rep.instance('RESUME-read-before-consume', {'fact': 'Simulation.init_algorithm deletes '
+                                                "self.results['resume_data']", 'holds': consumes})
+    if consumes:
+        for ci in ct.cone(base):
+            if ci is base:
+                continue
+            f = ci.methods.get('init_algorithm')
+            if f is None:
+                continue
+            sup = [c.lineno for c in ast.walk(f) if isinstance(c, ast.Call) and
+                   unparse(c.func) == 'super().init_algorithm']
+            reads = [x.lineno for x in ast.walk(f) if isinstance(x, ast.Subscript) and
+                     unparse(x) == "self.results['resume_data']" and isinstance(x.ctx, ast.Load)]
+            if not sup or not reads:
+                continue
+            n += 1
+            ok = max(reads) < min(sup)
+            rep.instance('RESUME-read-before-consume', {'class': ci.name, 'reads': reads,
+                                                        'super_call': sup, 'ok': ok})
+            if not ok:
+                rep.violation('RESUME-read-before-consume', ci.module, ci.name + '.init_algorithm',
+                              'read-after-super', "self.results['resume_data'] is read (line %d) "
+                              'after super().init_algorithm() (line %d), which clears and deletes '
+                              'it: the data for the second engine are never found, it restarts '
+                              'from evolved_time 0 on the checkpointed state'
+                              % (max(reads), min(sup)), max(reads))
+    m = prog.module('tenpy/simulations/simulation.py')
+    f = m.func('run_seq_simulations')
+    for lp in ast.walk(f):
+        if not isinstance(lp, ast.For):
+            continue
+        store = [st for st in lp.body if isinstance(st, ast.Assign) and
+                 unparse(st.targets[0]) == "sequential['index']"]
+        copy_ = [st for st in lp.body if isinstance(st, ast.Assign) and isinstance(
+            st.value, ast.Call) and unparse(st.value.func) in ('copy.deepcopy', 'deepcopy') and
+            'simulation_params' in unparse(st.value)]
+        if not store or not copy_:
+            continue
+        n += 1
+        ok = store[0].lineno < copy_[0].lineno
+        rep.instance('RESUME-seq-index', {'store': key_text(store[0]), 'copy': key_text(copy_[0])[:50],
+                                          'ok': ok})
+        if not ok:
+            rep.violation('RESUME-seq-index', m, 'run_seq_simulations', 'index-after-copy',
+                          '`%s` comes after `%s`: the copied parameters (saved in the checkpoints '
+                          'of this simulation) carry the index of the PREVIOUS simulation, a '
+                          'resume repeats the interrupted one' %
+                          (key_text(store[0]), key_text(copy_[0])[:50]), store[0].lineno)
     return n
